@@ -2,6 +2,7 @@ package h
 
 import (
 	"archive/tar"
+	"bytes"
 	"encoding/json"
 	"fmt"
 	"io"
@@ -92,7 +93,7 @@ type Session struct {
 }
 
 func NewSession(e *Env) *Session {
-	return &Session{E: e, Handles: map[int64]afero.File{}, Timeout: 3 * time.Second}
+	return &Session{E: e, Handles: map[int64]afero.File{}, Timeout: 10 * time.Second}
 }
 
 // Exec runs one call against the real code under a watchdog and returns the `res` line.
@@ -297,6 +298,22 @@ func (s *Session) Cat(name string) ([]byte, error) {
 	return b, cerr
 }
 
+type bufCloser struct{ b *bytes.Buffer }
+
+func (c bufCloser) Write(p []byte) (int, error) { return c.b.Write(p) }
+func (c bufCloser) Close() error                { return nil }
+
+// SafeCat reads a file's content through Operations.Restore (the archive interface).
+func (s *Session) SafeCat(name string) ([]byte, error) {
+	var buf bytes.Buffer
+	err := s.E.ReadOps.Restore(func(string, os.FileMode) (io.WriteCloser, error) { return bufCloser{&buf}, nil },
+		func(string, os.FileMode) error { return nil }, name, "", true)
+	if err != nil {
+		return nil, err
+	}
+	return buf.Bytes(), nil
+}
+
 // TreeLines walks the filesystem through its public API from "/" and renders what a user
 // sees, in the format of the reference filesystem's tree dump.
 func (s *Session) TreeLines() ([]string, error) {
@@ -348,11 +365,14 @@ func (s *Session) TreeLines() ([]string, error) {
 					return err
 				}
 			} else {
-				b, err := s.Cat(p)
+				// contents through the archive interface: a read error comes back as an error there
+				// (the handle's streaming goroutine would panic on it and take the process down)
+				b, err := s.SafeCat(p)
 				if err != nil {
-					return fmt.Errorf("cat %q: %w", p, err)
+					add(p, i, -int64(len(ClassOf(err)))-1000)
+				} else {
+					add(p, i, PolyHash(b))
 				}
-				add(p, i, PolyHash(b))
 			}
 		}
 		return nil
